@@ -5,6 +5,8 @@ ROOT = os.path.dirname(os.path.dirname(os.path.abspath(__file__)))
 sys.path.insert(0, os.path.join(ROOT, "lib"))
 from props import PROPS, ENGINES
 extra = json.load(open(os.path.join(ROOT, "lib", "manifest_extra.json")))
+DEFAULT_NOTE = extra["level_note"]["*"]
+DEFAULT_TECH = "machine-checked proof in Coq 8.16.1 over a hand-written executable model + model/implementation correspondence check (extracted OCaml vs Go harness)"
 all_ids = [json.loads(l)["id"] for l in open(os.path.join(ROOT, "properties.jsonl"))]
 hooks_commits = subprocess.run("git -C /repo log --format=%H --grep='^verif:'", shell=True, stdout=subprocess.PIPE, text=True).stdout.split()
 m = {
@@ -19,7 +21,7 @@ m = {
     },
     "engines": [dict(name=e, path="harness/cmd/%s + ocaml/%s_drv.ml + coq/theories/Extract/X_%s.v" % (e, e, e),
                      serves_properties=sorted(p for p in PROPS if PROPS[p]["engine"] == e),
-                     kind_free_text=extra["engines"].get(e, "")) for e in ENGINES],
+                     kind_free_text=next((PROPS[p].get("engine_text") for p in sorted(PROPS) if PROPS[p]["engine"] == e and PROPS[p].get("engine_text")), "")) for e in ENGINES],
     "checks": [],
     "not_applicable": [],
     "notes": extra.get("notes", ""),
@@ -34,9 +36,9 @@ for p in all_ids:
             "evidence_file": "/verif/evidence/%s.json" % p,
             "replay_cmd_template": "./check replay {path}",
             "engine": c["engine"],
-            "level_claimed": {"category": c.get("level", "proof"), "text": extra["level_text"][p], "design_ref": "DESIGN.md §4 " + p},
-            "level_note": extra["level_note"].get(p, extra["level_note"]["*"]),
-            "technique": extra["technique"].get(p, "machine-checked proof in Coq 8.16.1 over a hand-written executable model + model/implementation correspondence check (extracted OCaml vs Go harness)"),
+            "level_claimed": {"category": c.get("level", "proof"), "text": c["level_text"], "design_ref": "DESIGN.md §4 " + p},
+            "level_note": c.get("level_note", DEFAULT_NOTE),
+            "technique": c.get("technique", DEFAULT_TECH),
         })
     else:
         m["not_applicable"].append({"property_id": p, "reason": extra["not_applicable"].get(p, "check not built yet in this round; see DESIGN.md")})
